@@ -26,7 +26,15 @@ def gen_family(rng, n_classes=None, kinds=None, n_variants=None, rich=False):
         if v > 0 and keys:
             for k in rng.sample(keys, rng.randint(0, min(2, len(keys)))):
                 data[k] = gen.gen_value(rng, 1, 2, gen.SAFE, gen.SAFE)
-        variants.append({'file': f'v{v}.json', 'data': data, 'ns': rng.choice([None, None, 'n', 'm::k', 'm::k', 'z::n'])})
+        ns = rng.choice([None, None, 'n', 'm::k', 'm::k', 'z::n'])
+        if rng.random() < 0.2:
+            # a namespace that is a textual prefix of the name of a task used as input (`mo` / `model:fit`): not the same as being inside it
+            refd = sorted({gen.slug_of(classes[i_['ref']], modname) if i_['by'] == 'class' else i_['ref'] for c in classes.values() for i_ in c['inputs']
+                           if i_['by'] == 'class' or i_['ref'] != 'absent_task'})
+            if refd:
+                first = rng.choice(refd).split(':')[0]
+                ns = first[:rng.randint(1, len(first))] or ns
+        variants.append({'file': f'v{v}.json', 'data': data, 'ns': ns})
     files = {}
     for v in variants:
         files[v['file']] = v['data']
@@ -556,8 +564,13 @@ def run_batch(ctx, n, allow, length=(8, 30), label='history', kinds=None, oracle
         spec, variants = gen_family(rng, kinds=kinds, rich=rich)
         ops = gen_ops(rng, spec, variants, rng.randint(*length), allow)
         hist = run_history(spec, variants, ops, root / f'{label}{h}', stamp=stamp)
-        if any(r.get('error') for r in hist['rec']):
-            ctx.count('construction-error'); hist['built'].cleanup_module(); continue
+        errs = [r['error'] for r in hist['rec'] if r.get('error')]
+        if errs:
+            ctx.count('construction-error')
+            if any(e != 'bad_type' for e in errs):
+                # families are well-formed by construction (only a mistyped path value can make one unconstructible)
+                ctx.case({'module': spec['module'], 'ops': ops}); ctx.diverge('family:construction', {'module': spec['module'], 'spec': spec, 'variants_full': variants}, errs, 'constructible')
+            hist['built'].cleanup_module(); continue
         seg = portable(hist, spec)
         req, io = assemble([seg])
         maps = {'objs': topo_objects(hist['chains']), 'keep': seg['keep'], 'io': io}
